@@ -2,10 +2,11 @@ from __future__ import annotations
 
 import json
 from datetime import time
+from enum import Enum
 from typing import Any, cast
 
 from ..context import DEFAULT_SQL_CONTEXT, SqlContext
-from ..enums import Dialects
+from ..enums import DatePart, Dialects
 from ..queries import Query, QueryBuilder, Table
 from ..terms import ValueWrapper
 from ..utils import builder, format_alias_sql, format_quotes
@@ -30,7 +31,11 @@ class MySQLQuery(Query):
 class MySQLValueWrapper(ValueWrapper):
     def get_value_sql(self, ctx: SqlContext) -> str:
         quote_char = ctx.secondary_quote_char or ""
-        if isinstance(value := self.value, str):
+        value = self.value
+        if isinstance(value, Enum) and not isinstance(value, DatePart):
+            # unwrap the member first so that its value gets the same escaping as a plain value
+            value = value.value
+        if isinstance(value, str):
             value = value.replace(quote_char, quote_char * 2)
             value = value.replace("\\", "\\\\")
             return format_quotes(value, quote_char)
@@ -40,7 +45,7 @@ class MySQLValueWrapper(ValueWrapper):
         elif isinstance(value, (dict, list)):
             value = json.dumps(value).replace(quote_char, quote_char * 2)
             return format_quotes(value.replace("\\", "\\\\"), quote_char)
-        return super().get_value_sql(ctx)
+        return self.get_formatted_value(value, ctx)
 
 
 class MySQLQueryBuilder(QueryBuilder):
